@@ -23,12 +23,6 @@ Proof. vm_compute. reflexivity. Qed.
 Lemma all_blocks_reachable : forallb block_reachable config_blocks = true.
 Proof. vm_compute. reflexivity. Qed.
 
-Lemma crash_rows_exactly : crash_findings = known_crash_findings.
-Proof. vm_compute. reflexivity. Qed.
-
-Lemma crash_attr_rows_live : forallb crash_attr_row_live unvalidated_crash_attrs = true.
-Proof. vm_compute. reflexivity. Qed.
-
 Lemma all_attrs_accounted : forallb attr_ok config_attrs = true.
 Proof. vm_compute. reflexivity. Qed.
 
@@ -92,7 +86,6 @@ Definition disposition_holds (s : dropped_site) (d : disposition) : Prop :=
   | ValidatedWrapped vf vc va _ =>
       exists v, In v validators /\ v_func v = vf /\ v_callee v = vc /\ v_arg v = va /\ v_guard v = ""
   | ZeroValue _ | RuleData _ | Constant _ | Harmless _ | HelperDef _ | CliFlag _ => True
-  | CrashKnown f => In f known_crash_findings
   end.
 
 Lemma site_ok_spec s : site_ok s = true -> exists d, disposition_of s = Some d /\ disposition_holds s d.
@@ -104,7 +97,6 @@ Proof.
     destruct (has_validator_spec _ _ _ _ Hv) as [v [H1 [H2 [H3 [H4 _]]]]]. exists v. repeat split; assumption.
   - destruct (has_validator_spec _ _ _ _ H) as [v [H1 [H2 [H3 [H4 H5]]]]]. exists v. repeat split; try assumption.
     apply H5. reflexivity.
-  - apply mem_str_In. exact H.
 Qed.
 
 Lemma block_validated_spec b : block_validated b = true ->
